@@ -50,6 +50,14 @@ def r1(chk, ctx):
                 pk |= {"str" if v.value else "str0"} if isinstance(v.value, str) else {"null"}
             elif isinstance(v, ast.Call) and last(callname(v)) == "loads":
                 pk |= set(ALL)      # any JSON value can be sent as the body
+        # a top-level `if not isinstance(params, dict): return <error>` between the parse and the dispatch narrows params to objects
+        sites_ = prefix_dispatch_sites(hp.node)
+        disp_line = sites_[0][0].lineno if sites_ else 10 ** 9
+        last_def = max([d.lineno for d in name_defs(hp, "params")] or [0])
+        for s_ in hp.node.body:
+            if isinstance(s_, ast.If) and last_def < s_.lineno < disp_line and norm(s_.test) == "not isinstance(params, dict)" and not s_.orelse \
+                    and s_.body and isinstance(s_.body[-1], ast.Return) and _is_error_return(s_.body[-1])[0]:
+                pk &= set(DICT)
         bad = sorted(pk - DICT)
         site = [c for c in prefix_dispatch_sites(hp.node)]
         covered_by = "InternalError"
